@@ -310,3 +310,72 @@ Lemma estimate_tuplet_eps_refuted_lemma :
   exists d div sd v, 1 <= div <= 960 /\ 0 < d /\ estimate d div = ESome sd /\ sym_to_num sd div = Some v
                      /\ Qeq_bool v (inject_Z d) = false.
 Proof. exists 1007, 480, ("whole"%string, 0, Some (143, 75)). eexists. vm_compute. repeat split; discriminate. Qed.
+
+
+(* ---- the judgement of a sweep row depends on d/div and the answer only: a row (k*d, k*div) with
+   the answer of (d, div) is judged as (d, div) is *)
+Lemma Qeq_bool_comp a a' b b' : (a == a')%Q -> (b == b')%Q -> Qeq_bool a b = Qeq_bool a' b'.
+Proof.
+  intros Ea Eb. destruct (Qeq_bool a b) eqn:E1, (Qeq_bool a' b') eqn:E2; try reflexivity.
+  - apply Qeq_bool_iff in E1. rewrite Ea, Eb in E1. apply Qeq_bool_iff in E1. congruence.
+  - apply Qeq_bool_iff in E2. rewrite <- Ea, <- Eb in E2. apply Qeq_bool_iff in E2. congruence.
+Qed.
+
+Lemma Qle_bool_comp a a' b b' : (a == a')%Q -> (b == b')%Q -> Qle_bool a b = Qle_bool a' b'.
+Proof.
+  intros Ea Eb. destruct (Qle_bool a b) eqn:E1, (Qle_bool a' b') eqn:E2; try reflexivity.
+  - apply Qle_bool_iff in E1. rewrite Ea, Eb in E1. apply Qle_bool_iff in E1. congruence.
+  - apply Qle_bool_iff in E2. rewrite <- Ea, <- Eb in E2. apply Qle_bool_iff in E2. congruence.
+Qed.
+
+Lemma qdur_scale k d div : 0 < k -> 0 < div ->
+  (inject_Z (k * d) / inject_Z (k * div) == inject_Z d / inject_Z div)%Q.
+Proof.
+  intros Hk Hd. rewrite !inject_Z_mult. field. split; intros E; unfold Qeq in E; simpl in E; lia.
+Qed.
+
+Lemma sym_to_num_scale k sd div :
+  match sym_to_num sd div with
+  | Some v => exists v', sym_to_num sd (k * div) = Some v' /\ (v' == inject_Z k * v)%Q
+  | None => sym_to_num sd (k * div) = None
+  end.
+Proof.
+  destruct sd as [[ty dots] tup]. unfold sym_to_num.
+  destruct (slookup ty label_durs) as [lab|]; cbn [opt_bind]; [|reflexivity].
+  destruct (nth_error dot_multipliers (Z.to_nat dots)) as [dm|]; cbn [opt_bind]; [|reflexivity].
+  destruct (match tup with Some (a, n) => (a, n) | None => (0, 0) end) as [a n].
+  eexists. split; [reflexivity|]. rewrite inject_Z_mult. ring.
+Qed.
+
+Lemma classify_row_scale_lemma k d div obs :
+  0 < k -> 0 < div -> classify_row (k * d) (k * div) obs = classify_row d div obs.
+Proof.
+  intros Hk Hd. unfold classify_row. destruct obs as [sd|]; [|reflexivity].
+  pose proof (sym_to_num_scale k sd div) as Hs.
+  destruct (sym_to_num sd div) as [v|]; [|rewrite Hs; reflexivity].
+  destruct Hs as (v' & -> & Ev).
+  assert (Hkq : ~ (inject_Z k == 0)%Q) by (intros E; unfold Qeq in E; simpl in E; lia).
+  assert (E1 : Qeq_bool v' (inject_Z (k * d)) = Qeq_bool v (inject_Z d)).
+  { destruct (Qeq_bool v (inject_Z d)) eqn:E.
+    - apply Qeq_bool_iff in E. apply Qeq_bool_iff. rewrite Ev, E, inject_Z_mult. reflexivity.
+    - destruct (Qeq_bool v' (inject_Z (k * d))) eqn:E'; [|reflexivity].
+      apply Qeq_bool_iff in E'. rewrite Ev, inject_Z_mult in E'.
+      apply Qmult_inj_l in E'; [|exact Hkq]. apply Qeq_bool_iff in E'. congruence. }
+  rewrite E1. destruct (Qeq_bool v (inject_Z d)); [reflexivity|].
+  pose proof (qdur_scale k d div Hk Hd) as Eq.
+  destruct sd as [[ty dots] [[a n]|]].
+  - destruct (slookup ty label_durs) as [lab|]; [|reflexivity].
+    rewrite (Qle_bool_comp (Qabs (inject_Z n * lab / (inject_Z (k * d) / inject_Z (k * div)) - inject_Z a))
+                           (Qabs (inject_Z n * lab / (inject_Z d / inject_Z div) - inject_Z a))
+                           (thousandth + (1 # 1000000000)) (thousandth + (1 # 1000000000))).
+    + reflexivity.
+    + rewrite Eq. reflexivity.
+    + reflexivity.
+  - destruct (table_value (ty, dots, None)) as [tv|]; [|reflexivity].
+    rewrite (Qle_bool_comp (Qabs (inject_Z (k * d) / inject_Z (k * div) - tv))
+                           (Qabs (inject_Z d / inject_Z div - tv))
+                           (thousandth + (1 # 1000000000)) (thousandth + (1 # 1000000000))).
+    + reflexivity.
+    + rewrite Eq. reflexivity.
+    + reflexivity.
+Qed.
